@@ -109,3 +109,17 @@ if '--drop' in sys.argv:
         for k,v in opts.items(): s.set(k,v)
         for f in pc: s.add(f)
         s.add(z3.Not(o.goal)); t=time.time(); print(opts, s.check(), time.time()-t)
+if '--weak' in sys.argv:
+    from pyvc.core import has_user_quantifier
+    lite=[f for f in o.pc if not has_user_quantifier(f)]
+    s=z3.Solver(); s.set('timeout',20000)
+    for f in lite: s.add(f)
+    s.add(z3.Not(o.goal)); print('lite', s.check()); m=s.model()
+    def show(t, depth=0):
+        v=m.eval(t, model_completion=True)
+        if depth<6 and (z3.is_and(t) or z3.is_or(t) or z3.is_not(t) or z3.is_implies(t)):
+            print('  '*depth, t.decl().name(), v)
+            for c in t.children(): show(c, depth+1)
+        else:
+            print('  '*depth, v, str(t)[:260].replace('\n',' '))
+    show(o.goal)
